@@ -178,6 +178,13 @@ func (env *SpecEnv) importedPkg(name string) *types.Package {
 	if env.pkg == nil {
 		return nil
 	}
+	if path, ok := env.fr.vc.eng.importAlias[env.pkg.Pkg.Path()][name]; ok {
+		for _, p := range env.pkg.Pkg.Imports() {
+			if p.Path() == path {
+				return p
+			}
+		}
+	}
 	for _, p := range env.pkg.Pkg.Imports() {
 		if p.Name() == name {
 			return p
@@ -643,6 +650,39 @@ func (env *SpecEnv) callExpr(c *ast.CallExpr) (*Val, error) {
 			return boolVal(or(eq(w, "1"), sx(">=", r, "1"))), nil
 		}
 		return boolVal(and(eq(w, "0"), eq(r, "0"))), nil
+	case "isconst":
+		// isconst(x, T): x equals one of the constants declared with type T (read from go/types on every run)
+		a, err := arg(0)
+		if err != nil {
+			return nil, err
+		}
+		t, err := env.resolveType(c.Args[1])
+		if err != nil {
+			return nil, err
+		}
+		n := namedOf(t)
+		if n == nil || n.Obj().Pkg() == nil {
+			return nil, fmt.Errorf("isconst: %s is not a named type", types.ExprString(c.Args[1]))
+		}
+		seen := map[string]bool{}
+		var alts []Term
+		sc := n.Obj().Pkg().Scope()
+		for _, name := range sc.Names() {
+			k, ok := sc.Lookup(name).(*types.Const)
+			if !ok || !types.Identical(k.Type(), t) {
+				continue
+			}
+			cv, err := env.constVal(k.Val(), k.Type())
+			if err != nil || seen[cv.T] {
+				continue
+			}
+			seen[cv.T] = true
+			alts = append(alts, eq(a.T, cv.T))
+		}
+		if len(alts) == 0 {
+			return nil, fmt.Errorf("isconst: no constants of type %s", t)
+		}
+		return boolVal(or(alts...)), nil
 	case "lockid":
 		mu, err := arg(0)
 		if err != nil {
